@@ -62,6 +62,15 @@ def generate(ck):
         hi = wl.f(rng.uniform(max(2 * lo, 1.0), 30.0))
         o = wl.oil_params(rng)
         pb = wl.bubblepoint(*o)
+        nearly_dead = False
+        if i % 6 == 5:
+            # nearly dead oils: a few scf/stb of gas, bubble point positive but BELOW atmospheric pressure
+            for _ in range(200):
+                o2 = [wl.f(rng.uniform(80, 350)), wl.f(rng.uniform(12, 55)), wl.f(rng.uniform(0.56, 1.3)), wl.f(np.exp(rng.uniform(np.log(1.0), np.log(25.0))))]
+                pb2 = wl.bubblepoint(*o2)
+                if 0.5 < pb2 < 14.6:
+                    o, pb, nearly_dead = o2, pb2, True
+                    break
         descs.append(
             {
                 "Tr": Tr,
@@ -71,7 +80,7 @@ def generate(ck):
                 "pr_lo": lo,
                 "pr_hi": hi,
                 "oil": o,
-                "oil_p": [wl.f(v) for v in np.concatenate([rng.uniform(15, pb, 3), [pb], rng.uniform(pb, 2.5 * pb, 2)])],
+                "oil_p": [wl.f(v) for v in (np.concatenate([rng.uniform(15, pb, 3), [pb], rng.uniform(pb, 2.5 * pb, 2)]) if not nearly_dead else np.concatenate([rng.uniform(0.3 * pb, pb, 2), [pb, 14.7], rng.uniform(pb, 14.7, 2), rng.uniform(14.7, 200.0, 2)]))],
                 "water": [wl.f(rng.uniform(60, 400)), wl.f(rng.choice([0.0, rng.uniform(0, 25)]))],
                 "water_p": [wl.f(v) for v in rng.uniform(15, 20000, 6)],
                 "threads": bool(i % 25 == 3),
@@ -179,6 +188,12 @@ def run_case(ck, desc):
         w = 62.37 * og + 0.0136 * gg * rs
         if not ck.margin("rho_o*Bo=stock-tank+dissolved-gas", abs(d * b / w - 1), 1e-12):
             ck.violation("rho_o*Bo=stock-tank+dissolved-gas", {"p": p, "rho*Bo": d * b, "want": w}, desc)
+        # ... with the dissolved gas from the harness's own Standing expression: what the oil can hold
+        # at p, and never more than it contains (the library's own Rs is not the judge of itself)
+        rs_own = min(gor, gg * ((p / 18.2 + 1.4) * 10.0 ** (0.0125 * api - 0.00091 * To)) ** (1 / 0.83))
+        w_own = 62.37 * og + 0.0136 * gg * rs_own
+        if not ck.margin("rho_o*Bo=stock-tank+dissolved-gas (own Rs)", abs(d * b / w_own - 1), 1e-11):
+            ck.violation("rho_o*Bo=stock-tank+dissolved-gas", {"p": p, "rho*Bo": d * b, "want": w_own, "Rs_library": rs, "Rs_own": rs_own, "GOR_initial": gor}, desc)
         ck.count("oil_state_points")
     # the same identity when the correlations are given a pressure ARRAY through the bubble point
     # (float and integer grids): an element's density must not depend on what else is in the array
